@@ -7,10 +7,16 @@
    every joined array is well formed; the repository's hstack is sound with respect to the specified hstack (=
    concatenation along axis 1 of the inputs promoted to rank 2) and is refuted on inputs that differ only in the
    joined axis (open finding F11, pinned by the repository's own test).
-   NOT YET PROVED (exhaustively checked by the correspondence run incl. split-then-concatenate round trips on the
-   implementation): the block placement theorem for append / concatenate / stack along an axis (the code goes through
-   unit slices, a flat re-assembly, a reshape with exchanged extents and a transpose). *)
-From ArrRs Require Import Index Axis Split Join Join_proofs Broadcast_proofs Axis_proofs Split_proofs.
+   JOINING (rank >= 2, positive extents): C11_append_axis — appending along an axis gives the receiver's shape with the
+   two axis lengths added, the receiver below its axis length and the appended array, shifted, beyond (the code's
+   unit slices, flat re-assembly, reshape with exchanged extents and transpose are all inside the theorem);
+   C11_concatenate_axis — any number of inputs are laid one after the other (`locate` walks the inputs subtracting
+   their axis lengths); C11_split_concatenate — array_split into at most (axis length) parts followed by concatenate
+   along the same axis returns the original array.
+   NOT YET PROVED (checked by the correspondence run): stack / vstack / hstack / dstack / column_stack as coordinate
+   statements (they are expand_dims / atleast promotions followed by concatenate), rank-1 joins along axis 0, and
+   splits producing empty blocks (parts > axis length). *)
+From ArrRs Require Import Index Axis Split Join Join_proofs Broadcast_proofs Axis_proofs Split_proofs Append_proofs.
 
 Theorem C11_split_sizes : forall n parts, 0 < parts ->
   length (section_sizes n parts) = parts /\
@@ -64,6 +70,37 @@ Theorem C11_split_uneven_refused : forall (T : Type) (d : T) (a : arr T) parts a
   wf a -> pos_shape (shape a) -> ax < ndim a -> 0 < parts -> nth ax (shape a) 0 mod parts <> 0 ->
   split_even d a parts (Some ax) = Err EParam.
 Proof. exact @split_even_refuses. Qed.
+
+Theorem C11_append_axis : forall (T : Type) (d : T) (a v : arr T) ax,
+  wf a -> wf v -> pos_shape (shape a) -> pos_shape (shape v) -> 2 <= ndim a -> ndim v = ndim a -> ax < ndim a ->
+  (Z.of_nat (ndim a) < two64)%Z -> remove_nth (shape a) ax = remove_nth (shape v) ax ->
+  let na := nth ax (shape a) 0 in
+  exists R, append d a v (Some ax) = Ok R /\ wf R /\ shape R = upd (shape a) ax (na + nth ax (shape v) 0) /\
+    forall c, in_range (shape R) c ->
+      get d R c = if nth ax c 0 <? na then get d a c else get d v (upd c ax (nth ax c 0 - na)).
+Proof. exact @append_axis_spec. Qed.
+
+Theorem C11_locate_def : forall (T : Type) (d : T) ax (a : arr T) t c,
+  locate d ax (a :: t) c = if nth ax c 0 <? nth ax (shape a) 0 then get d a c
+                           else locate d ax t (upd c ax (nth ax c 0 - nth ax (shape a) 0)).
+Proof. reflexivity. Qed.
+
+Theorem C11_concatenate_axis : forall (T : Type) (d : T) ax rs n (first : arr T) rest,
+  2 <= n -> ax < n -> (Z.of_nat n < two64)%Z -> Forall (joinable ax rs n) (first :: rest) ->
+  exists R, concatenate d (first :: rest) (Some ax) = Ok R /\ wf R /\ remove_nth (shape R) ax = rs /\ ndim R = n /\
+    nth ax (shape R) 0 = fold_left (fun s a => s + nth ax (shape a) 0) rest (nth ax (shape first) 0) /\
+    forall c, in_range (shape R) c -> get d R c = locate d ax (first :: rest) c.
+Proof. exact @concatenate_axis_spec. Qed.
+
+Theorem C11_joinable_def : forall (T : Type) ax rs n (a : arr T),
+  joinable ax rs n a <-> wf a /\ pos_shape (shape a) /\ ndim a = n /\ remove_nth (shape a) ax = rs.
+Proof. reflexivity. Qed.
+
+Theorem C11_split_concatenate : forall (T : Type) (d : T) (a : arr T) parts ax,
+  wf a -> pos_shape (shape a) -> 2 <= ndim a -> ax < ndim a -> (Z.of_nat (ndim a) < two64)%Z ->
+  0 < parts <= nth ax (shape a) 0 ->
+  exists ps, array_split d a parts (Some ax) = Ok ps /\ length ps = parts /\ concatenate d ps (Some ax) = Ok a.
+Proof. exact @array_split_concatenate. Qed.
 
 Example C11_split_nonvacuous :
   array_split 0%Z (mk (map Z.of_nat (seq 0 12)) [2;3;2]) 2 (Some 1) =
